@@ -830,7 +830,9 @@ fn main() {
         let relevant = |p: &str| match kind {
             Kind::Session => p.starts_with("sess."),
             Kind::Task => p.starts_with("task."),
-            Kind::Thread => p.starts_with("cont.") || p == "log.flushed",
+            // incl. the file-system steps of the truth log and of the sidecar `replay_events` reads (a snapshot taken
+            // between the body and the newline of the line being appended must still give a consistent history)
+            Kind::Thread => p.starts_with("cont.") || p.starts_with("log.") || p.starts_with("cache.side."),
         };
         let mut pos: Vec<usize> = vec![0];
         pos.extend(trace.iter().enumerate().filter(|(_, p)| relevant(p)).map(|(i, _)| i + 1));
